@@ -234,76 +234,87 @@ def case_chunks(case):
     return [] if f[5] == "." else [bytes.fromhex(h) if h != "-" else b"" for h in f[5].split(",")]
 
 
-def disagree(ctx, case):
+def disagree_many(ctx, cases):
     before = ctx.cov["evaluations"]
-    i, m, crash = vf.correspond(ctx, "shrink", [case])
+    i, m, crash = vf.correspond(ctx, "shrink", cases, shards=1)
     ctx.cov["evaluations"] = before
-    return crash is not None or i != m
+    if crash is not None:
+        # a crash hides the lines after it: fall back to one by one
+        res = []
+        for c in cases:
+            i1, m1, c1 = vf.correspond(ctx, "shrink", [c], shards=1)
+            ctx.cov["evaluations"] = before
+            res.append(c1 is not None or i1 != m1)
+        return res
+    return [x != y for x, y in zip(i, m)]
 
 
-def seg_fails(ctx, case):
-    """segmentation oracle on the implementation alone: chunked result != whole result"""
-    ch = case_chunks(case)
-    if ch is None:
-        return False
+def whole_of(case):
     f = case.split("\t")
-    whole = run_case(f[2], [b"".join(ch)], f[3], f[4])
+    return run_case(f[2], [b"".join(case_chunks(case))], f[3], f[4])
+
+
+def seg_fails_many(ctx, cases):
+    """segmentation oracle on the implementation alone: chunked result != whole result"""
     before = ctx.cov["evaluations"]
-    i, m, crash = vf.correspond(ctx, "shrink", [case, whole])
+    both = []
+    for c in cases:
+        both += [c, whole_of(c)]
+    i, m, crash = vf.correspond(ctx, "shrink", both, shards=1)
     ctx.cov["evaluations"] = before
-    return crash is not None or i[0] != i[1]
+    if crash is not None:
+        return [False] * len(cases)
+    return [i[2 * k] != i[2 * k + 1] for k in range(len(cases))]
 
 
-def shrink(ctx, case, bad, budget=150):
-    """greedy minimisation: drop bytes, merge chunks, while `bad` still holds"""
+def candidates(chunks):
+    """smaller variants of a chunk list: drop a chunk, merge neighbours, delete a byte range"""
+    out = []
+    for j in range(len(chunks)):
+        if len(chunks) > 1:
+            out.append(chunks[:j] + chunks[j + 1:])
+    for j in range(len(chunks) - 1):
+        out.append(chunks[:j] + [chunks[j] + chunks[j + 1]] + chunks[j + 2:])
+    for j, c in enumerate(chunks):
+        n = len(c)
+        size = n
+        while size >= 1:
+            for k in range(0, n, size):
+                if size < n or len(chunks) == 1:
+                    out.append(chunks[:j] + [c[:k] + c[k + size:]] + chunks[j + 1:])
+            size //= 2
+    return out
+
+
+def shrink(ctx, case, bad_many, rounds=40):
+    """greedy minimisation (batched): while some smaller variant still fails, move to the smallest such"""
     f = case.split("\t")
     if f[1] == "run":
-        chunks = case_chunks(case)
-
-        def build(chs):
-            return run_case(f[2], chs, f[3], f[4])
-        cur = chunks
-        changed = True
-        while changed and budget > 0:
-            changed = False
-            # merge two neighbouring chunks / drop an empty chunk
-            for j in range(len(cur) - 1):
-                if len(cur) <= 2:
-                    break
-                cand = cur[:j] + [cur[j] + cur[j + 1]] + cur[j + 2:]
-                budget -= 1
-                if bad(ctx, build(cand)):
-                    cur, changed = cand, True
-                    break
-            if changed:
-                continue
-            for j in range(len(cur)):
-                for k in range(len(cur[j])):
-                    cand = cur[:j] + [cur[j][:k] + cur[j][k + 1:]] + cur[j + 1:]
-                    budget -= 1
-                    if budget <= 0:
-                        break
-                    if bad(ctx, build(cand)):
-                        cur, changed = cand, True
-                        break
-                if changed or budget <= 0:
-                    break
-        return build(cur)
-    if f[1] == "dec":
-        s = bytes.fromhex(f[4]) if f[4] != "-" else b""
-        changed = True
-        while changed and budget > 0:
-            changed = False
-            for k in range(len(s)):
-                cand = s[:k] + s[k + 1:]
-                budget -= 1
-                if budget <= 0:
-                    break
-                if bad(ctx, dec_case(int(f[2]), f[3], cand)):
-                    s, changed = cand, True
-                    break
-        return dec_case(int(f[2]), f[3], s)
-    return case
+        cur = case_chunks(case)
+        build = lambda chs: run_case(f[2], chs, f[3], f[4])
+    elif f[1] == "dec":
+        cur = [bytes.fromhex(f[4]) if f[4] != "-" else b""]
+        build = lambda chs: dec_case(int(f[2]), f[3], chs[0])
+    else:
+        return case
+    for _ in range(rounds):
+        cands = candidates(cur)
+        seen, uniq = set(), []
+        for c in cands:
+            k = tuple(c)
+            if k not in seen and c != cur:
+                seen.add(k)
+                uniq.append(c)
+        uniq.sort(key=lambda c: (sum(map(len, c)), len(c)))
+        uniq = uniq[:600]
+        if not uniq:
+            break
+        res = bad_many(ctx, [build(c) for c in uniq])
+        nxt = next((c for c, r in zip(uniq, res) if r), None)
+        if nxt is None:
+            break
+        cur = nxt
+    return build(cur)
 
 
 def describe(case):
@@ -326,6 +337,60 @@ def describe(case):
     return d
 
 
+HEXD = b"0123456789abcdefABCDEF"
+
+
+def py_wellformed(s):
+    i = 0
+    while i < len(s):
+        if s[i] == 0:
+            return False
+        if s[i] == 0x25:
+            if i + 2 >= len(s) or s[i + 1] not in HEXD or s[i + 2] not in HEXD or int(s[i + 1:i + 3], 16) == 0:
+                return False
+            i += 3
+        else:
+            i += 1
+    return True
+
+
+def py_ref(cfgspec, s):
+    """Independent statement of the property text for well-formed input (every % followed by two hex digits, no NUL):
+    used only to look for a concrete failing input when a proof obligation breaks (then model == code proves nothing)."""
+    plus = cfgspec.split(",")[1] == "1"
+
+    def dec(b):
+        out = bytearray()
+        i = 0
+        while i < len(b):
+            if b[i] == 0x25:
+                out.append(int(b[i + 1:i + 3], 16))
+                i += 3
+            else:
+                out.append(0x20 if (b[i] == 0x2b and plus) else b[i])
+                i += 1
+        return bytes(out)
+    ps = s.split(b"&")
+    if ps and ps[-1] == b"":
+        ps.pop()
+    pairs = []
+    for p in ps:
+        k, _, v = p.partition(b"=")
+        pairs.append(vf.hexs(dec(k)) + "=" + vf.hexs(dec(v)))
+    return (" ".join(pairs) if pairs else "none") + " | 0 0"
+
+
+def search_with_text_reference(ctx, cases, impl):
+    for c, o in zip(cases, impl):
+        f = c.split("\t")
+        if f[1] != "run" or f[3] != "d" or f[4] != "d":
+            continue
+        s = b"".join(case_chunks(c))
+        if py_wellformed(s) and py_ref(f[2], s) != o:
+            return c, o, py_ref(f[2], s)
+    return None
+
+
 def check(ctx):
     pr = vf.proof_step(ctx, "Properties_C15")
     keys = set()
@@ -337,15 +402,17 @@ def check(ctx):
     suites.append(("S-dec", gen_dec(ctx), []))
     suites.append(("S-urlenc-tx", gen_tx(ctx), []))
     nseg = 0
+    kept = []
     for name, cases, groups in suites:
         impl, model, crash = vf.correspond(ctx, name, cases)
         if crash:
             vf.report_crash(ctx, name, cases, crash)
             continue
+        kept.append((cases, impl))
         mm = vf.first_mismatches(impl, model, limit=5)
         ctx.cov["suites"][name]["mismatches"] = len(mm)
         for i in mm[:2]:
-            c = shrink(ctx, cases[i], disagree)
+            c = shrink(ctx, cases[i], disagree_many)
             ii, mo, _ = vf.correspond(ctx, "shrunk", [c])
             ctx.cov["evaluations"] -= 1
             vf.violation(ctx, "%s-%d" % (name, i), {
@@ -367,7 +434,7 @@ def check(ctx):
         for w, j in segbad[:1]:
             if any(cases[j] == json.load(open(p)).get("case") for p, _ in ctx.violations):
                 continue
-            c = shrink(ctx, cases[j], seg_fails)
+            c = shrink(ctx, cases[j], seg_fails_many)
             ch = case_chunks(c)
             f = c.split("\t")
             whole = run_case(f[2], [b"".join(ch)], f[3], f[4])
@@ -386,6 +453,19 @@ def check(ctx):
         mid = len(cases) // 2
         vf.sample(ctx, {"suite": name, "case": cases[mid], "result": model[mid] if model else None})
         vf.sample(ctx, {"suite": name, "case": cases[-1], "result": model[-1] if model else None})
+    if not pr["ok"] and not ctx.violations:
+        # a proof obligation broke (e.g. a regenerated default changed) and model == code: look for an input on which
+        # the implementation contradicts the property text itself
+        for cases, impl in kept:
+            hit = search_with_text_reference(ctx, cases, impl)
+            if hit:
+                vf.violation(ctx, "text-reference", {
+                    "kind": "implementation-differs-from-property-text", "case": hit[0], "input": describe(hit[0]),
+                    "implementation": hit[1], "property_text_reference": hit[2],
+                    "theorem_file": vf.broken_theorem(pr["log"]),
+                    "note": "the Coq proof no longer goes through for the regenerated model; this input is well-formed "
+                            "(every % followed by two hex digits, no NUL) and the reported pairs are not the split/decoded ones"})
+                break
     vf.note_distinct(ctx, keys)
     ctx.cov["segmentation_oracle_evaluations"] = nseg
     ctx.cov["exhaustive"] = False
@@ -428,5 +508,10 @@ def replay(ctx, path):
         if crash2 is not None or (i2 and i2[0] != i[0]):
             print("=> chunking changes the implementation's result")
             bad = True
+        if f[3] == "d" and f[4] == "d" and py_wellformed(b"".join(ch)) and i:
+            r = py_ref(f[2], b"".join(ch))
+            print("property text (well-formed input):", r)
+            if r != i[0]:
+                bad = True
     print("=> " + ("FAILS (implementation differs from the proved reference)" if bad else "agrees"))
     return 1 if bad else 0
